@@ -261,6 +261,30 @@ func TestC19RoundTrip(t *testing.T) {
 			c.NonTrivialItem(fmt.Sprintf("rt/%d/%s/%s", len(entropy), pwClass, fname))
 		}
 
+		// the same in-memory key file again (a Manager keeps the KeyFiles it read at start): after a wrong password
+		// and a refused tampered copy it still decrypts with its password, and written back it is still the file
+		if c.Weighted("same-object-again", 1, 1) == 1 {
+			c.Class("same-key-file-object-used-again")
+			ao := decryptStruct(kf2, pw)
+			c.R.Count("kdf_calls", 1)
+			if ao.pan != nil {
+				c.Failf("C19/decrypt-panic-valid-file", "key file object used a second time: %v [%s]", ao, ao.stack)
+			} else if ao.err != nil {
+				c.Failf("C19/roundtrip-rejected", "the key file object that was tried with another password before no longer decrypts with its own password %s: %v", showPw(pw), ao)
+			} else {
+				checkKeyStore(c, "key store from the second use of the key file object", ao.ks, entropy, rv)
+			}
+			if c.Bool("write-back") {
+				if err := kf2.Write(); err != nil {
+					c.Failf("C19/write-error", "KeyFile.Write after Decrypt: %v", err)
+				}
+				raw2, _ := os.ReadFile(path)
+				if ok, why := readSem(raw2).sameProtected(sem); !ok {
+					c.Failf("C19/file-format", "the key file written back after use differs from the original in %s", why)
+				}
+			}
+		}
+
 		// cross-implementation: reference opens the wallet's file, wallet opens the reference's file
 		if c.Weighted("interop", 2, 1) == 1 {
 			c.Class("interop")
